@@ -23,12 +23,14 @@ def _cases(tier, seed):
     tts = STRUCTS_TT + ([{'N': [2, 3, 2, 2], 'R': [1, 2, 3, 2, 1], 'R2': [1, 1, 2, 1, 1]}] if th else [])
     ttms = STRUCTS_TTM + ([{'N': [2, 2, 1, 2], 'M': [1, 2, 2, 1], 'R': [1, 2, 2, 2, 1]}] if th else [])
     AMODE = {'scalar_mode': 'A', 'logic': 'QF_NRA', 'setup': {'factor_mode': 'exact'}}
-    for name in ('riem_projection', 'round_default', 'norm_untracked'):
+    for name in ('riem_projection', 'round_default', 'norm_untracked', 'norm_sq_untracked'):
         # value-level operand preservation through exact QR/SVD models: rank-1 profiles with arbitrary entries
-        for st in ([{'N': [2, 2], 'R': [1, 1, 1]}, {'N': [2, 1, 2], 'R': [1, 1, 1, 1]}, {'N': [2, 2], 'M': [2, 1], 'R': [1, 1, 1]}] + ([{'N': [3, 2, 2], 'R': [1, 1, 1, 1]}] if th else [])):
+        for st in ([{'N': [2, 2], 'R': [1, 1, 1]}, {'N': [2, 1, 2], 'R': [1, 1, 1, 1]}, {'N': [2, 2], 'M': [2, 1], 'R': [1, 1, 1]}, {'N': [3], 'R': [1, 1]}, {'N': [2], 'M': [3], 'R': [1, 1]}] + ([{'N': [3, 2, 2], 'R': [1, 1, 1, 1]}] if th else [])):
+            if len(st['N']) == 1 and not name.startswith('norm'):
+                continue          # (single-core objects only for the norms: the manifold routines are specified for order >= 2)
             cs.append({'scen': 'op_preserve', 's': dict(st, op=name, R2=st['R']), 'opts': AMODE})
     for name, (kinds, f) in OPS.items():
-        if name in ('riem_projection', 'round_default', 'norm_untracked'):
+        if name in ('riem_projection', 'round_default', 'norm_untracked', 'norm_sq_untracked'):
             continue
         first = kinds[0]
         structs = []
